@@ -3,87 +3,74 @@ import PytaskProofs.Lemmas.Capture
 # C15 — a finished build leaves the calling process as it found it
 
 Property theorems only (model M10, `PytaskModel/Capture.lean`; `runBuild` is one `pytask.build()`, `release` is
-the caller dropping the session and running `gc.collect()`). The full-strength statements about the standard
-streams / open descriptors and about consecutive builds are **false of the current code** (findings F6 and F7):
-they are kept as `def … _full : Prop`, refuted with concrete witnesses, and the strongest true weakenings are
-proved. What the model cannot exhibit: GC timing beyond "unreachable file objects are closed by `release`",
+the caller dropping the session and running `gc.collect()`). Since commit 124aca8 (`capture.pytask_unconfigure` stops
+the capture manager, `database.pytask_unconfigure` disposes the engine; finding F6, fixed) the statements about the
+standard streams and the open descriptors hold at full strength. The full-strength statement about consecutive builds
+is still **false of the current code** (finding F7): it is kept as `def … _full : Prop`, refuted with concrete
+witnesses, and the strongest true weakening is proved. What the model cannot exhibit: GC timing beyond "unreachable file objects are closed by `release`",
 descriptor budgets of imported libraries, `pdb` interaction (see `ASSUMPTIONS` in `harness/props/c15.py`).
 -/
 namespace Pytask.Capture
-
-/-- **C15_streams_full** — the property at full strength: whatever the capture method, after a build that
-passed configuration (and after the caller released the session) descriptors 0-2 refer to the same files, the three
-`sys.std*` objects are the same objects, and no more descriptors are open than before. -/
-def C15_streams_full : Prop :=
-  ∀ (cfg : Cfg) (st0 : St) (mods : List ModSpec) (ios : List TaskIO),
-    cfg.configFails = false → StdW st0.w → st0.w.py.garbage = [] →
-    (∀ j, j < 3 → (release cfg (runBuild cfg mods ios st0)).w.os.fd j = st0.w.os.fd j) ∧
-    (release cfg (runBuild cfg mods ios st0)).w.py.stdin = st0.w.py.stdin ∧
-    (release cfg (runBuild cfg mods ios st0)).w.py.stdout = st0.w.py.stdout ∧
-    (release cfg (runBuild cfg mods ios st0)).w.py.stderr = st0.w.py.stderr ∧
-    (release cfg (runBuild cfg mods ios st0)).w.os.count = st0.w.os.count
 
 /-- a process with three distinct files on descriptors 0, 1, 2 -/
 private def w0 : W := { os := { files := [[], [], []], fdt := [some 0, some 1, some 2] } }
 private def ios1 : List TaskIO :=
   [⟨7, [("pytask_execute_task_setup", []), ("pytask_execute_task", [⟨.pyOut, [104]⟩]), ("pytask_execute_task_teardown", [])], []⟩]
 private theorem w0_std : StdW w0 :=
-  ⟨⟨⟨0, by decide, by decide⟩, ⟨1, by decide, by decide⟩, ⟨2, by decide, by decide⟩⟩, rfl, rfl, rfl⟩
+  ⟨⟨⟨0, by decide⟩, ⟨1, by decide⟩, ⟨2, by decide⟩⟩, rfl, rfl, rfl⟩
 
-/-- **F6 witness.** One `capture=fd` build with one executed task: afterwards descriptor 0 refers to the
-`/dev/null` file opened by `FDCapture(0)` (file 4) instead of file 0 — nothing in `pytask_unconfigure` stops the
-capture manager, and `suspend(in_=False)` never restores stdin. -/
-theorem C15_streams_full_false : ¬ C15_streams_full := by
-  intro h
-  have := (h { method := .fd } { w := w0 } [] ios1 rfl w0_std rfl).1 0 (by decide)
-  revert this
-  decide +kernel
-
-/-- **C15_streams_partial.** What does hold, for every capture method, when `build()` returns: descriptors 1 and
-2 refer to the files they referred to before and `sys.stdout` / `sys.stderr` are the interpreter's own objects
-again, no assertion of `capture.py` failed; and with `capture=no` or `tee-sys` also descriptor 0 and `sys.stdin`
-are untouched. -/
-theorem C15_streams_partial (cfg : Cfg) (st0 : St) (mods : List ModSpec) (ios : List TaskIO)
+/-- **C15_streams_full** — the property at full strength, for every capture method, every task list and every
+initial process state with descriptors 0-2 open and the interpreter's own `sys.stdout` / `sys.stderr`: when a build
+that passed configuration returns, *every* descriptor refers to what it referred to before (in particular 0, 1, 2),
+`sys.stdin` / `sys.stdout` / `sys.stderr` are the same objects, the number of open descriptors is the same, and no
+assertion of `capture.py` failed. -/
+theorem C15_streams_full (cfg : Cfg) (st0 : St) (mods : List ModSpec) (ios : List TaskIO)
     (hcf : cfg.configFails = false) (hw : StdW st0.w) :
-    (runBuild cfg mods ios st0).w.os.fd 1 = st0.w.os.fd 1 ∧
-    (runBuild cfg mods ios st0).w.os.fd 2 = st0.w.os.fd 2 ∧
+    (∀ j, (runBuild cfg mods ios st0).w.os.fd j = st0.w.os.fd j) ∧
+    (runBuild cfg mods ios st0).w.py.stdin = st0.w.py.stdin ∧
     (runBuild cfg mods ios st0).w.py.stdout = st0.w.py.stdout ∧
     (runBuild cfg mods ios st0).w.py.stderr = st0.w.py.stderr ∧
+    (runBuild cfg mods ios st0).w.os.count = st0.w.os.count ∧
     (runBuild cfg mods ios st0).w.fault = false ∧
-    ((cfg.method = .no ∨ cfg.method = .teeSys) →
-      (runBuild cfg mods ios st0).w.os.fd 0 = st0.w.os.fd 0 ∧ (runBuild cfg mods ios st0).w.py.stdin = st0.w.py.stdin) := by
-  cases hm : cfg.method
-  · obtain ⟨p, ins, r, _, h1, h2, _⟩ := build_fd cfg st0 mods ios hm hcf hw
-    exact ⟨by rw [r.fd1, h1], by rw [r.fd2, h2], by rw [r.sout, hw.sout], by rw [r.serr, hw.serr], r.nofault,
-      fun h => by rcases h with h | h <;> cases h⟩
-  · obtain ⟨p, ins, r, _, h1, h2, _⟩ := build_sys cfg st0 mods ios false (by simp [hm]) hcf hw
-    exact ⟨by rw [r.fd1, h1], by rw [r.fd2, h2], by rw [r.sout, hw.sout], by rw [r.serr, hw.serr], r.nofault,
-      fun h => by rcases h with h | h <;> cases h⟩
-  · obtain ⟨t1, t2, r, h1, h2, _, _, _, h7, h8, _⟩ := build_no cfg st0 mods ios hm hcf hw
-    exact ⟨by rw [r.fd1, h1], by rw [r.fd2, h2], by rw [r.sout, hw.sout], by rw [r.serr, hw.serr], r.nofault,
-      fun _ => ⟨h7 0 (by omega), h8⟩⟩
-  · obtain ⟨p, ins, r, _, h1, h2, _, _, _, h7, h8, _⟩ := build_sys cfg st0 mods ios true (by simp [hm]) hcf hw
-    exact ⟨by rw [r.fd1, h1], by rw [r.fd2, h2], by rw [r.sout, hw.sout], by rw [r.serr, hw.serr], r.nofault,
-      fun _ => ⟨h7 0 (by omega), h8 rfl⟩⟩
+    (runBuild cfg mods ios st0).cm = some ⟨cfg.method, none⟩ ∧
+    (runBuild cfg mods ios st0).w.py.dbFd = none := by
+  obtain ⟨r, a, _, _, _, d⟩ := build_restores cfg st0 mods ios hcf hw
+  exact ⟨r.fd, r.stdin, r.stdout, r.stderr, r.count, r.nofault, a, d⟩
 
-/-- **C15_leak_now** — the finding as a theorem about the current code. Every `capture=fd` build that passes
-configuration returns with exactly 7 more open descriptors than it was entered with (3 saved duplicates of 0-2,
-3 temporary files, the database); after the caller has released the session at least 3 of them are still open,
-whatever the previous builds of the process left behind — the garbage collector can only close the descriptors
-of the *previous* build's capture manager and engine. -/
-theorem C15_leak_now (cfg : Cfg) (st0 : St) (mods : List ModSpec) (ios : List TaskIO)
-    (hm : cfg.method = .fd) (hcf : cfg.configFails = false) (hw : StdW st0.w) (hg : st0.w.py.garbage = []) :
-    (runBuild cfg mods ios st0).w.os.count = st0.w.os.count + 7 ∧
-    st0.w.os.count + 3 ≤ (release cfg (runBuild cfg mods ios st0)).w.os.count := by
-  obtain ⟨p, ins, r, _, _, _, _, _, _, _, hc, _, _, _, _, _, _, hgar⟩ := build_fd cfg st0 mods ios hm hcf hw
-  refine ⟨hc, ?_⟩
-  have h1 := count_closeAll (runBuild cfg mods ios st0).w.py.garbage (runBuild cfg mods ios st0).w.os
-  have h2 : (runBuild cfg mods ios st0).w.py.garbage.length ≤ 4 := by
-    rw [hgar, hg]
-    have := owned_cm_le st0.cm
-    cases st0.w.py.dbFd <;> simp <;> omega
-  show _ ≤ (List.foldl (fun o i => o.close i) (runBuild cfg mods ios st0).w.os (runBuild cfg mods ios st0).w.py.garbage).count
-  omega
+/-- **C15_noleak** (replaces `C15_leak_now` of the code before 124aca8). (a) Per build, from any state: the number
+of open descriptors after a build equals the number before — also for builds whose configuration fails. (b) By
+induction over any sequence of builds in one process (any mix of capture methods, projects, task lists, failing
+configurations): after `k` builds the descriptor table, the number of open descriptors, the three `sys.std*` objects,
+`warnings.filters`, `pdb.set_trace` and `PytaskPDB._saved` are what they were before the first build, and the state is
+again one the theorems apply to. -/
+theorem C15_noleak_build (cfg : Cfg) (st0 : St) (mods : List ModSpec) (ios : List TaskIO) (hw : StdW st0.w) :
+    (runBuild cfg mods ios st0).w.os.count = st0.w.os.count := by
+  have := builds_restore [⟨cfg, mods, ios⟩] st0 hw
+  exact this.count
+
+theorem C15_noleak (bs : List BuildArgs) (st0 : St) (hw : StdW st0.w) :
+    (runBuilds bs st0).w.os.count = st0.w.os.count ∧
+    (∀ j, (runBuilds bs st0).w.os.fd j = st0.w.os.fd j) ∧
+    (runBuilds bs st0).w.py.stdin = st0.w.py.stdin ∧
+    (runBuilds bs st0).w.py.stdout = st0.w.py.stdout ∧
+    (runBuilds bs st0).w.py.stderr = st0.w.py.stderr ∧
+    (runBuilds bs st0).w.py.filters = st0.w.py.filters ∧
+    (runBuilds bs st0).w.py.setTrace = st0.w.py.setTrace ∧
+    (runBuilds bs st0).w.py.pdbSaved = st0.w.py.pdbSaved ∧
+    StdW (runBuilds bs st0).w := by
+  have r := builds_restore bs st0 hw
+  exact ⟨r.count, r.fd, r.stdin, r.stdout, r.stderr, r.filters, r.setTrace, r.pdbSaved, r.std hw⟩
+
+/-- **C15_release.** Nothing is left for the garbage collector that matters: the descriptors a later `gc.collect()`
+may close are those of objects that were already unreachable before the build (`garbage` of the initial state) plus
+the engine and capture manager of the *previous* build, which hold no descriptor any more once that build went through
+`pytask_unconfigure`; so if the process starts clean, `release` changes no descriptor. -/
+theorem C15_release (cfg : Cfg) (st0 : St) (mods : List ModSpec) (ios : List TaskIO)
+    (hm : cfg.method = .fd) (hcf : cfg.configFails = false) (hw : StdW st0.w)
+    (hg : st0.w.py.garbage = []) (hdb : st0.w.py.dbFd = none) (hcm : (st0.cm.map CM.owned).getD [] = []) :
+    (release cfg (runBuild cfg mods ios st0)).w.os = (runBuild cfg mods ios st0).w.os := by
+  obtain ⟨_, _, _, _, _, _, _, _, _, _, _, _, _, _, _, _, g⟩ := build_fd cfg st0 mods ios hm hcf hw
+  simp [release, step, g, hg, hdb, hcm]
 
 /-- **C15_misc.** On every path that passed configuration, whatever the method and whatever the tasks did (they
 may add warning filters inside their `catch_warnings` block): `warnings.filters`, `pdb.set_trace` and
@@ -97,21 +84,14 @@ theorem C15_misc (cfg : Cfg) (st0 : St) (mods : List ModSpec) (ios : List TaskIO
     (runBuild cfg mods ios st0).w.py.reportVars = 0 ∧
     (runBuild cfg mods ios st0).w.py.provisional = [] ∧
     (runBuild cfg mods ios st0).w.py.collected = [] := by
-  cases hm : cfg.method
-  · obtain ⟨p, ins, _, _, _, _, _, _, _, _, _, a, b, c, d, e, f, _⟩ := build_fd cfg st0 mods ios hm hcf hw
-    exact ⟨a, b, c, d, e, f⟩
-  · obtain ⟨p, ins, _, _, _, _, _, _, _, _, _, a, b, c, d, e, f⟩ := build_sys cfg st0 mods ios false (by simp [hm]) hcf hw
-    exact ⟨a, b, c, d, e, f⟩
-  · obtain ⟨t1, t2, _, _, _, _, _, _, _, _, a, b, c, d, e, f⟩ := build_no cfg st0 mods ios hm hcf hw
-    exact ⟨a, b, c, d, e, f⟩
-  · obtain ⟨p, ins, _, _, _, _, _, _, _, _, _, a, b, c, d, e, f⟩ := build_sys cfg st0 mods ios true (by simp [hm]) hcf hw
-    exact ⟨a, b, c, d, e, f⟩
+  obtain ⟨r, _, a, b, c, _⟩ := build_restores cfg st0 mods ios hcf hw
+  exact ⟨r.filters, r.setTrace, r.pdbSaved, a, b, c⟩
 
 /-- **C15_config_failure.** A build whose configuration fails before any `pytask_post_parse` ran (the only
 configuration failures the campaign generates) touches nothing: the whole process state is unchanged. -/
 theorem C15_config_failure (cfg : Cfg) (st0 : St) (mods : List ModSpec) (ios : List TaskIO)
-    (hcf : cfg.configFails = true) : (runBuild cfg mods ios st0).w = st0.w ∧ (runBuild cfg mods ios st0).cm = st0.cm := by
-  simp [runBuild, buildOps, hcf, runOps]
+    (hcf : cfg.configFails = true) : (runBuild cfg mods ios st0).w = st0.w ∧ (runBuild cfg mods ios st0).cm = st0.cm :=
+  runBuild_configFails cfg st0 mods ios hcf
 
 /-- **C15_samebuilds_full** — the property at full strength: the `k`-th build of a process collects the same
 tasks, with the same collection verdict, as a build in a fresh process. -/
@@ -144,16 +124,18 @@ theorem C15_samebuilds_partial (mods : List ModSpec) (h : ∀ m ∈ mods, m.deco
 
 example : StdW w0 := w0_std
 
-/-- three consecutive `capture=fd` builds: 3 → 10 → 13 → 16 open descriptors (after release), as observed on the
-real code (4 → 11 → 14 → 17 with one extra descriptor held by the harness) -/
+/-- three consecutive `capture=fd` builds with an executed task: 3 open descriptors before, 3 after each build, fd 0
+still on file 0, `sys.stdin` the original object (before 124aca8: 3 → 10 → 13 → 16, fd 0 on `/dev/null`) -/
 example :
     let b := fun st => release { method := .fd } (runBuild { method := .fd } [] ios1 st)
-    (b { w := w0 }).w.os.count = 10 ∧ (b (b { w := w0 })).w.os.count = 13 ∧ (b (b (b { w := w0 }))).w.os.count = 16 ∧
-    (b { w := w0 }).w.py.stdin = .dontRead 1 := by decide +kernel
+    (b { w := w0 }).w.os.count = 3 ∧ (b (b { w := w0 })).w.os.count = 3 ∧ (b (b (b { w := w0 }))).w.os.count = 3 ∧
+    (b { w := w0 }).w.os.fd 0 = some 0 ∧ (b { w := w0 }).w.py.stdin = .orig 0 ∧
+    (runBuild { method := .fd } [] ios1 { w := w0 }).secs = [⟨7, "call", false, [104]⟩] := by decide +kernel
 
-/-- `capture=sys`: descriptors untouched, but `sys.stdin` stays a `DontReadFromInput` -/
-example : (runBuild { method := .sys } [] ios1 { w := w0 }).w.os.fd 0 = some 0
-    ∧ (runBuild { method := .sys } [] ios1 { w := w0 }).w.py.stdin = .dontRead 0 := by decide +kernel
+/-- a mixed sequence (fd, sys, failing configuration, tee-sys, no) as an instance of `C15_noleak` -/
+example :
+    (runBuilds [⟨{ method := .fd }, [], ios1⟩, ⟨{ method := .sys }, [], ios1⟩, ⟨{ method := .fd, configFails := true }, [], []⟩,
+                ⟨{ method := .teeSys }, [], ios1⟩, ⟨{ method := .no }, [], ios1⟩] { w := w0 }).w.os.count = 3 := by decide +kernel
 
 /-- the hypothesis of `C15_samebuilds_partial` on a two-module project, and its conclusion for the 3rd build -/
 example : collectedAt [⟨1, [], [1, 2], false⟩, ⟨2, [], [3], false⟩] 2 = ([(1, 1), (1, 2), (2, 3)], false) := by decide +kernel
